@@ -449,4 +449,11 @@ example :
     goodRoot "x/../repo/".toList = true ∧ normalPrefix "a/".toList = true ∧ b2Addr "a/b".toList = some "a/b".toList := by
   refine ⟨by decide, by decide, by decide, by decide, by decide, by decide⟩
 
+/-- non-vacuity: a name universe with a shared directory satisfies `Universe`, the empty tree satisfies `Inv` -/
+example : Universe (fun p => p = ["a".toList, "b".toList] ∨ p = ["a".toList, "c".toList]) ∧
+    Inv (fun p => p = ["a".toList, "b".toList] ∨ p = ["a".toList, "c".toList]) FS.empty := by
+  refine ⟨⟨?_, ?_⟩, Inv.empty _⟩
+  · rintro p (rfl | rfl) <;> decide
+  · rintro p q (rfl | rfl) (rfl | rfl) <;> decide
+
 end Replicat.C13
